@@ -312,6 +312,20 @@ def subst_pairs(run, rec):
     return ps
 
 
+def _isnan_bits(v, w):
+    e, m = (0x7f800000, 0x007fffff) if w == 32 else (0x7ff0000000000000, 0x000fffffffffffff)
+    return (v & e) == e and (v & m) != 0
+
+
+def _eq_fp(term, val, w):
+    """FP result lane: a native NaN matches any NaN of the formula (sign / payload of a NaN are not part of any claim; the concrete-NaN
+    mode of the point evaluations fixes one pattern arbitrarily)"""
+    if _isnan_bits(val, w):
+        if isinstance(term, int): return z3.BoolVal(_isnan_bits(term, w))
+        return z3.fpIsNaN(z3.fpBVToFP(term, z3.Float32() if w == 32 else z3.Float64()))
+    return _eq(term, val, w)
+
+
 def _eq(term, val, w):
     if isinstance(term, bool): return z3.BoolVal(term == bool(val))
     if isinstance(term, int): return z3.BoolVal((term & mask(max(w, 1))) == val) if w else z3.BoolVal(bool(term) == bool(val))
@@ -350,7 +364,8 @@ def check_body(run, k, obs, goals, native, timeout_ms=10000):
             continue
         nat = flat_native(k, raw)
         if len(nat) != len(terms): out['inconclusive'] += 1; continue
-        eqs = [_eq(t, v, w) for (lbl, t), (v, w) in zip(terms, nat)]
+        fpres = k.ret[0] in ('v', 'T') and k.ret[1] in TYPES and TYPES[k.ret[1]][3] == 'fp'
+        eqs = [(_eq_fp if fpres and w in (32, 64) else _eq)(t, v, w) for (lbl, t), (v, w) in zip(terms, nat)]
         conj = z3.And(*eqs) if len(eqs) > 1 else eqs[0]
         g = z3.simplify(z3.substitute(conj, *ps)) if ps else z3.simplify(conj)
         if z3.is_true(g): out['agreed'] += 1; continue
